@@ -222,6 +222,61 @@ Section Dict.
       + split; [discriminate|tauto].
       + split; [|reflexivity]. intros _ [H|H]; [congruence|]. now apply IH.
   Qed.
+
+  Lemma dset_absent d k v : dget d k = None -> dset d k v = d ++ [(k, v)].
+  Proof.
+    induction d as [|[a w] r IH]; cbn; [reflexivity|].
+    destruct (keqb a k); [discriminate|]. intros H. now rewrite IH.
+  Qed.
+
+  (* a Python dict literal with distinct keys is itself *)
+  Lemma dmerge_dict a b : NoDup (dkeys a ++ map fst b) -> dmerge a b = a ++ b.
+  Proof.
+    unfold dmerge. revert a. induction b as [|[bk bv] r IH]; cbn; intros a Hnd.
+    - now rewrite app_nil_r.
+    - assert (Hn : dget a bk = None).
+      { apply dget_None_notin. intros Hin. apply NoDup_remove_2 in Hnd. apply Hnd.
+        apply in_app_iff. now left. }
+      rewrite dset_absent by exact Hn. rewrite IH.
+      + now rewrite <- app_assoc.
+      + unfold dkeys. rewrite map_app, <- app_assoc. exact Hnd.
+  Qed.
+
+  Lemma dlast_dget b k : NoDup (map fst b) -> dlast b k = dget b k.
+  Proof.
+    induction b as [|[bk bv] r IH]; cbn; [reflexivity|]. intros Hnd.
+    inversion Hnd as [|? ? Hn Hnd']; subst. rewrite IH by assumption.
+    destruct (keqb_spec bk k) as [->|Hne].
+    - assert (E : dget r k = None) by now apply dget_None_notin. now rewrite E.
+    - destruct (dget r k); reflexivity.
+  Qed.
+
+  Lemma dget_app a b k :
+    dget (a ++ b) k = match dget a k with Some v => Some v | None => dget b k end.
+  Proof.
+    induction a as [|[ak av] r IH]; cbn; [reflexivity|].
+    destruct (keqb ak k); [reflexivity | exact IH].
+  Qed.
+
+  Lemma dlast_In b k v : dlast b k = Some v -> In (k, v) b.
+  Proof.
+    induction b as [|[bk bv] r IH]; cbn; [discriminate|].
+    destruct (dlast r k) eqn:E.
+    - intros H; inversion H; subst. right. now apply IH.
+    - destruct (keqb_spec bk k) as [->|Hne]; [|discriminate].
+      intros H; inversion H; subst. now left.
+  Qed.
+
+  Lemma fold_dset_dmerge (A : Type) (f : A -> K) (g : A -> V) (l : list A) (acc : dict) :
+    fold_left (fun d x => dset d (f x) (g x)) l acc = dmerge acc (map (fun x => (f x, g x)) l).
+  Proof.
+    unfold dmerge. revert acc. induction l as [|x l IH]; cbn; intros acc; [reflexivity|].
+    apply IH.
+  Qed.
+
+  Lemma NoDup_pairs (l : dict) : NoDup (dkeys l) -> NoDup l.
+  Proof. apply NoDup_map_inv. Qed.
+
 End Dict.
 
 Section DictEq.
@@ -239,4 +294,65 @@ Section DictEq.
                        | Some w => veqb (snd kv) w
                        | None => false
                        end) x.
+
+  Lemma deqb_true_iff x y :
+    NoDup (dkeys x) -> NoDup (dkeys y) ->
+    (deqb x y = true <-> forall k, dget keqb x k = dget keqb y k).
+  Proof.
+    intros Hx Hy. unfold deqb. rewrite andb_true_iff, Nat.eqb_eq, forallb_forall. split.
+    - intros [Hlen Hall] k.
+      assert (Hsub : forall k v, dget keqb x k = Some v -> dget keqb y k = Some v).
+      { intros k0 v Hg. apply (dget_In keqb keqb_spec) in Hg. specialize (Hall _ Hg). cbn in Hall.
+        destruct (dget keqb y k0) as [w|]; [|discriminate].
+        destruct (veqb_spec v w); congruence. }
+      destruct (dget keqb x k) as [v|] eqn:E; [symmetry; now apply Hsub|].
+      symmetry. apply (dget_None_notin keqb keqb_spec). intros Hin.
+      apply (dget_None_notin keqb keqb_spec) in E. apply E.
+      assert (Hincl : incl (dkeys x) (dkeys y)).
+      { intros k0 Hk0. apply (In_dkeys_dget keqb keqb_spec) in Hk0.
+        destruct (dget keqb x k0) as [v|] eqn:E0; [|congruence].
+        apply (In_dkeys_dget keqb keqb_spec). rewrite (Hsub _ _ E0). congruence. }
+      assert (Hrev : incl (dkeys y) (dkeys x)).
+      { apply NoDup_length_incl; [exact Hx| |exact Hincl].
+        unfold dkeys. rewrite !map_length. lia. }
+      now apply Hrev.
+    - intros Hext. split.
+      + assert (P : Permutation (dkeys x) (dkeys y)).
+        { apply NoDup_Permutation; try assumption. intros k.
+          rewrite !(In_dkeys_dget keqb keqb_spec), Hext. tauto. }
+        apply Permutation_length in P. unfold dkeys in P. now rewrite !map_length in P.
+      + intros [k v] Hin. cbn. apply (In_dget keqb keqb_spec) in Hin; [|exact Hx].
+        rewrite <- Hext, Hin. destruct (veqb_spec v v); congruence.
+  Qed.
 End DictEq.
+
+Lemma NoDup_map_inj_on (A B : Type) (f : A -> B) (l : list A) :
+  (forall x y, In x l -> In y l -> f x = f y -> x = y) -> NoDup l -> NoDup (map f l).
+Proof.
+  induction l as [|a l IH]; cbn; intros Hinj Hnd; [constructor|].
+  inversion Hnd as [|? ? Hn Hnd']; subst. constructor.
+  - intros Hin. apply in_map_iff in Hin as [y [Hfy Hy]].
+    assert (y = a) by (apply Hinj; auto). subst. contradiction.
+  - apply IH; auto.
+Qed.
+
+
+(* later-wins lookup commutes with mapping the values *)
+Lemma dlast_map_val (K : Type) (keqb : K -> K -> bool) (A V : Type) (f : A -> K) (g : A -> V)
+      (l : list A) (k : K) :
+  dlast keqb (map (fun x => (f x, g x)) l) k =
+  match dlast keqb (map (fun x => (f x, x)) l) k with Some x => Some (g x) | None => None end.
+Proof.
+  induction l as [|x l IH]; cbn; [reflexivity|].
+  rewrite IH. destruct (dlast keqb (map (fun x0 => (f x0, x0)) l) k); [reflexivity|].
+  destruct (keqb (f x) k); reflexivity.
+Qed.
+
+Lemma dget_map_self (K : Type) (keqb : K -> K -> bool)
+      (keqb_spec : forall a b, reflect (a = b) (keqb a b)) (V : Type) (items : dict K V) k :
+  dget keqb (map (fun kv => (fst kv, kv)) items) k =
+  match dget keqb items k with Some v => Some (k, v) | None => None end.
+Proof.
+  induction items as [|[a w] r IH]; cbn; [reflexivity|].
+  destruct (keqb_spec a k) as [->|Hne]; [reflexivity | exact IH].
+Qed.
